@@ -115,19 +115,31 @@ CLAIMED = {
         technique="Coq proofs: function model, dispatch chains translated from source, LTS with a variant (per-member facts by exhaustive vm_compute reflection over a finite view) + exhaustive differential testing + trace acceptance and monitors under deterministic simulation",
         design="5/C06"),
     "C19": dict(
-        text="Machine-checked proof (Coq 8.16) over the control skeleton of stop(): the final commit's retry loop makes exactly "
-             "one attempt once closing (and provably never ends on retriable errors if closing is ignored - the defect that was "
-             "fixed), and every stop path whose awaits are bounded by the request timeout returns within 4 request timeouts for "
-             "every environment oracle. Runtime clauses are decided by the simulator: stop() is issued at a sweep of points "
-             "(bootstrap, first join, steady state, mid-rebalance) under healthy / unreachable / failing-over clusters for group "
-             "and group-less consumers and for producers with unresolved batches; the monitor checks the bound, that no task or "
-             "connection of the client survives, that later API calls raise the stopped/closed error and that LeaveGroup was "
-             "sent when the coordinator was reachable.",
-        note="Partial: the theorem covers the skeleton's termination/bound; leaked tasks, timers and transports are runtime "
-             "facts sampled on the live objects at every explored stopping point. Trusted: Coq kernel, hand skeleton, simulator. "
-             "No axioms.",
-        technique="Coq proofs over a control-skeleton model + runtime monitor under deterministic simulation",
-        design="5/C19"),
+        text="Machine-checked proof (Coq 8.16). (1) The shutdown paths as a model regenerated from source on every run: "
+             "translator/close2gallina.py turns nine background routines (every await point classified by what a cancellation "
+             "delivered there leads to) and AIOKafkaConsumer.stop / AIOKafkaProducer.stop with all close procedures they call "
+             "(sequence of cancel-and-join steps, guard and await style of each) into data of the task calculus "
+             "model/C19_Tasks.v. Proved: a decidable per-step condition is sufficient for a close procedure to run to its last "
+             "step from EVERY environment of the state space (each task not started, suspended at any of its await points, "
+             "finished, failed with a broker error) - no CancelledError or task exception escapes, no join hangs - and necessary "
+             "for cancel-and-join steps; the generated group / group-less / producer stop procedures satisfy it, so they always "
+             "reach client.close(). With internal errors of the client admitted the statement is refuted (witness replayed on "
+             "the code). (2) The control skeleton of the final commit: exactly one attempt once closing, stop() within 4 request "
+             "timeouts for every oracle. Correspondence and runtime clauses under the deterministic simulator: stop() at a sweep "
+             "of points (bootstrap, first join, steady state, mid-rebalance, idle-leave, unsubscribe) under healthy / unreachable "
+             "/ failing-over clusters for group and group-less consumers and producers; the task states recorded when the close "
+             "procedures call cancel() must lie in the model's state space, every suspension line must be a translated await "
+             "point, and the model evaluated inside Coq must predict what stop() did; monitors check the time bound, that no "
+             "task or connection survives, that later API calls raise the stopped/closed error, that LeaveGroup was sent.",
+        note="Partial: leaked tasks/timers/transports and the time bound are runtime facts sampled on live objects; the calculus "
+             "does not model what routines do between awaits or a second concurrent stop(). Trusted: Coq kernel; the asyncio "
+             "semantics written into C19_Tasks.v; close2gallina.py (fail-closed) with its hand-set per-slot flags "
+             "(may_unstarted, may_cancelled, may_fail) and three awaits assumed not to raise (asyncio.wait, gather over "
+             "connection closes, LeaveGroup send under except KafkaError) - all exercised by the join-time correspondence; "
+             "simulator. No axioms.",
+        technique="Coq proofs over a task calculus instantiated by a source translator (regenerated every run) + model-vs-code "
+                  "correspondence on observed task states + runtime monitor under deterministic simulation",
+        design="9.3 (C19, round 11), 5/C19"),
     "C08": dict(
         text="Machine-checked proof (Coq 8.16). Model: well-formed transactional partition logs built from any interleaving "
              "of any number of producers' committed/aborted/open transactions, plain batches, compaction and solitary markers, "
